@@ -12,7 +12,7 @@ from fiddle._src import daglish
 from harness import common, l2, c02, c14
 from harness.common import Failure, Result, Stream, g_list, g_pair, g_N, g_nat, g_bool
 
-COQ_TARGETS = ["theories/C15Check.vo", "theories/Anchors.vo"]
+COQ_TARGETS = ["theories/C15Check.vo"]
 TRUSTED_BASE = ["Python's issubclass on the configured classes (supplied to the model as a table)"]
 ASSUMPTIONS = []
 
